@@ -164,10 +164,29 @@ def enumerate_all(ck, tmp):
                 desc = name if kind == "SuitEnum" else {name: val}
                 for_reqs.append(["encode", d["class"], desc, [], []])
                 for_meta.append((sp, d["class"], name, desc))
+    # ... and next to a legitimate member of that key space (before it and after it), carrying a value that the legitimate
+    # member's type accepts: the sibling must not lend its key or its type to the foreign name
+    valid = {}
+    for (sp, cname, kind, name, rid, desc, ires), rq in zip(enc_meta, enc_reqs):
+        if kind == "SuitKeyValue" and ires[0] == "ok" and rid not in (-1, -2):
+            valid.setdefault(sp, []).append((name, desc[name], rq[3]))
+    for sp, d in reg["spaces"].items():
+        cls = cl.get(d["class"])
+        if cls is None or not d["closed"] or sp not in valid:
+            continue
+        sibs = valid[sp][:1] + valid[sp][-1:] if len(valid[sp]) > 1 else valid[sp]
+        for name in vocab:
+            if name in d["entries"]:
+                continue
+            for (lname, lval, lfiles) in sibs:
+                for desc in ({lname: lval, name: lval}, {name: lval, lname: lval}):
+                    for_reqs.append(["encode", d["class"], desc, lfiles, []])
+                    for_meta.append((sp, d["class"], name, desc))
     mres = interp.model_batch(ck, for_reqs)
     for (sp, cname, name, desc), mr in zip(for_meta, mres):
         ires = interp.run_impl(interp.impl_encode, cname, desc)
-        ck.count("foreign", (sp, name), nontrivial=True, sample={"space": sp, "foreign_name": name})
+        ck.count("foreign", (sp, name, len(desc) if isinstance(desc, dict) else 0, next(iter(desc)) if isinstance(desc, dict) else ""), nontrivial=True,
+                 sample={"space": sp, "foreign_name": name, "entries": len(desc) if isinstance(desc, dict) else 1})
         if mr != ires and not any(b[1] == "Interp.from_obj (rejection)" for b in ck.broken):
             ck.broken.append(("corr", "Interp.from_obj (rejection)", f"{cname} {desc}: model {short(mr)} implementation {short(ires)}"))
         if not (ires[0] == "exn" and ires[1] == "ValueError"):
